@@ -128,6 +128,17 @@ def run(ctx):
             fv = Fraction(float.fromhex(f)); q = (fv - Fraction(fmin)) / Fraction(df)
             if abs(q - idx) > Fraction(1, 2) + Fraction(1, 10 ** 6):
                 bad("nearest", "get_index(%r) = %d but the frequency is %.4f channels from fmin" % (float.fromhex(f), idx, float(q)))
+        for un, got in sorted(r.get("get_index_units", {}).items()):
+            if isinstance(got, str):
+                bad("index-units", "get_index with a frequency in %s %s" % (un, got)); continue
+            for f, idx in zip(c["freqs"], got):
+                fv = Fraction(float.fromhex(f)); q = (fv - Fraction(fmin)) / Fraction(df)
+                if abs(q - idx) > Fraction(1, 2) + Fraction(1, 10 ** 4):
+                    bad("index-units", "get_index(%r Hz expressed in %s) = %d but the frequency is %.4f channels from fmin" % (float.fromhex(f), un, idx, float(q)))
+                    break
+        ga = r.get("get_index_array")
+        if ga is not None and ga != r["get_index"]:
+            bad("index-array", "get_index of an array of frequencies gives %s, element by element %s" % (ga, r["get_index"]))
         if abs(float.fromhex(r["fmid"]) - (fmin + fmax) / 2) > tol or float.fromhex(r["obs_length"]) != T * dt or \
                 float.fromhex(r["unit_drift_rate"]) != float.fromhex(r["df"]) / float.fromhex(r["dt"]) or abs(float.fromhex(r["t_stop"]) - (float.fromhex(r["t_start"]) + T * dt)) > 1e-6:
             bad("derived", "fmid / obs_length / unit_drift_rate / t_stop inconsistent with the grid")
